@@ -243,25 +243,48 @@ def w_step(cfg, tier):
         edges = [tuple(int(c) for c in e) for e in edges]
         return faces, edges
 
+    # windows: every single vertex (with an arbitrary prior correction on its candidate edges) and every PAIR
+    # of vertices whose candidate edges border a common face (two rules firing in the same step toggle that
+    # face twice); pairs start from an empty prior correction
+    face_of_edge = {e: set(np.nonzero(Hd[:, qidx[e]])[0].tolist()) for e in qidx}
     for d in dirs:
-        for v in vertices:
-            faces, edges = window(v, d)
+        singles = [(v,) for v in vertices]
+        pairs = []
+        if cfg.split(' ')[0] == 'step2':
+            singles = []
+            for i1, v1 in enumerate(vertices):
+                e1 = [e for e in window(v1, d)[1] if e in qidx]
+                for v2 in vertices[i1 + 1:]:
+                    e2 = [e for e in window(v2, d)[1] if e in qidx]
+                    if any(a_ != b_ and face_of_edge[a_] & face_of_edge[b_] for a_ in e1 for b_ in e2):
+                        pairs.append((v1, v2))
+        for vs in singles + pairs:
+            v = vs[0] if len(vs) == 1 else vs
+            faces, edges = [], []
+            for v_ in vs:
+                f_, e_ = window(v_, d)
+                faces += [x for x in f_ if x not in faces]
+                edges += [x for x in e_ if x not in edges]
             fidx = [sidx[f] for f in faces if f in sidx]
             eok = [e for e in edges if e in qidx]
+            if len(vs) == 2:
+                eok_prior = []
+            else:
+                eok_prior = eok
             is_seam = any(e[dd] - 1 < box_lo[dd] or e[dd] + 1 > box_hi[dd] for e in edges for dd in range(2)) or \
                 any(f[dd] < box_lo[dd] or f[dd] > box_hi[dd] for f in faces for dd in range(2))
             if not fidx:
                 continue
             n_win += 1
             SB = {i: z3.Bool(f'w_{i}') for i in fidx}
-            CB = {e: z3.Bool('c_' + '_'.join(map(str, e))) for e in eok}
+            CB = {e: z3.Bool('c_' + '_'.join(map(str, e))) for e in eok_prior}
             eng = Engine(name=cfg, max_paths=2000, isolate=_isolated(Dec))
             with eng:
                 def fn():
                     dec._rng = SymRng('tie')
                     signs = as_sa([Bit(SB[i]) if i in SB else 0 for i in range(m)])
                     corr = {}
-                    for e in eok:                       # arbitrary prior correction on the candidate edges
+                    for e in eok_prior:                 # arbitrary prior correction on the candidate edges
                         if bool(Bit(CB[e])):
                             corr[e] = 'Z'
                     before = dict(corr)
@@ -276,7 +299,7 @@ def w_step(cfg, tier):
                                dict(vertex=list(v), direction=list(d) if d else None,
                                     signs={str(i): (1 if mo is not None and z3.is_true(mo.eval(b, model_completion=True)) else 0)
                                            for i, b in SB.items()},
-                                    prior=[list(e) for e in eok if mo is not None and
+                                    prior=[list(e) for e in eok_prior if mo is not None and
                                            z3.is_true(mo.eval(CB[e], model_completion=True))]) if mo else None,
                                f'{type(p.exc).__name__}: {p.exc}')
                     continue
@@ -295,7 +318,7 @@ def w_step(cfg, tier):
                 for i in range(m):
                     want = bool(syn[i]) if xmask[i] else False
                     diffs.append(z3.Xor(z3.Xor(bool_term(old[i]), bool_term(new[i])), z3.BoolVal(want)))
-                bads.append((z3_and(p.pc + [z3_or(diffs)]), v, d, SB, CB, eok, is_seam))
+                bads.append((z3_and(p.pc + [z3_or(diffs)]), v, d, SB, CB, eok_prior, is_seam))
     found = {'interior': 0, 'seam': 0}
     for t, v, d, SB, CB, eok, is_seam in bads:
         tag = 'seam' if is_seam else 'interior'
@@ -403,7 +426,7 @@ def w_loop(cfg, tier):
 
 
 def worker(cfg, tier='quick'):
-    return {'geometry': w_geometry, 'step': w_step, 'loop': w_loop, 'cross': w_cross}[cfg.split()[0]](cfg, tier)
+    return {'geometry': w_geometry, 'step': w_step, 'step2': w_step, 'loop': w_loop, 'cross': w_cross}[cfg.split()[0]](cfg, tier)
 
 
 def replay(path):
@@ -504,6 +527,12 @@ def configs(tier):
     for c in cubic + rot:
         out.append(f'geometry {c}')
         out.append(f'step {c}')
+    two = ['RotatedPlanar3DCode(3,3,3)', 'RotatedPlanar3DCode(2,2,2)', 'Toric3DCode(2,2,2)', 'Planar3DCode(2,2,2)',
+           'RotatedToric3DCode(2,2,2)']
+    if tier != 'quick':
+        two += ['RotatedPlanar3DCode(3,4,3)', 'RotatedPlanar3DCode(4,4,3)', 'Toric3DCode(2,3,4)', 'Planar3DCode(3,2,3)',
+                'Toric3DCode(3,3,3)', 'RotatedToric3DCode(3,4,2)']
+    out += [f'step2 {c}' for c in two]
     out += [f'cross {c}' for c in (cubic + rot)[:(8 if tier == 'quick' else 100)]]
     out += ['loop Toric3DCode(2,2,2)', 'loop Planar3DCode(2,2,2)', 'loop RotatedPlanar3DCode(2,2,2)',
             'loop RotatedToric3DCode(2,2,2)']
@@ -528,10 +557,11 @@ def main(argv=None):
                      'window: the three sweep faces of ONE vertex are symbolic, every other face is 0, so only that '
                      'vertex\'s rule fires; all vertices x (rotated) sweep directions are enumerated'],
         bounds=dict(geometry='symbolic edge location, all 2^m states', step='per vertex window: 2^3 states x 2^3 prior '
-                    'corrections x 3 tie-breaks', configurations=len(cfgs)),
+                    'corrections x 3 tie-breaks', step2='per pair of vertices whose candidate edges border a common face: '
+                    '2^(<=6) states x tie-breaks of both, empty prior correction', configurations=len(cfgs)),
         stubs=['numpy Generator -> SymRng (tie-break)', 'index tables -> SymDict (geometry part)'],
-        outside=['termination / success of the automaton (whether it removes all excitations)', 'interaction of two '
-                 'vertices firing in the same step on a shared edge beyond what the per-vertex windows cover',
+        outside=['termination / success of the automaton (whether it removes all excitations)', 'interaction of three '
+                 'or more vertices firing in the same step beyond what the single-vertex and vertex-pair windows cover',
                  'lattice sizes beyond the list'])
 
 
